@@ -320,39 +320,50 @@ def showBuf (s : Buffer.St) (extra : String) : String :=
   s!"p={c.pending} it={c.inT} ip={c.inP} co={c.consumed} lo={c.leftover} dr={c.dropped} io={c.ioErr} gc={c.gChunks} gb={c.gBytes} " ++
   s!"q={c.qT + c.qP} out={s.outW.length} hand={if s.hand.isSome then 1 else 0} files={if files.isEmpty then "-" else ",".intercalate files}{extra}"
 
+def bufNew (st : DState) (m q b d fresh : String) : Option DState :=
+  match m.toNat?, q.toNat?, b.toNat? with
+  | some m, some q, some b =>
+    -- a generation that was not shut down is shut down first (the harness does the same)
+    let prev := if st.buf.destroyed then st.buf else (Buffer.step st.buf .destroy).getD st.buf
+    let disk := if fresh == "1" then [] else prev.disk
+    some { st with buf := Buffer.recover { memCap := m, queueCap := q, maxBytes := b, hasDir := d == "1" } disk }
+  | _, _, _ => none
+
+def bufOp (st : DState) (op : String) (args : List String) : DState × String :=
+  let o : Option Buffer.Op := match op, args with
+    | "accept", [id, h] => do some (.accept (← id.toNat?) (← unhex h))
+    | "take", [] => some .take
+    | "confirm", [id] => id.toNat?.map .confirm
+    | "handback", [id] => id.toNat?.map .handBack
+    | "destroy", [] => some .destroy
+    | "destroystalled", [] => some .destroy
+    | "finish", [] => some .finish
+    | "extzero", [id] => id.toNat?.map .extZero
+    | "extrm", [id] => id.toNat?.map .extRemove
+    | _, _ => none
+  match o with
+  | none => (st, "bad-op")
+  | some o =>
+    match Buffer.step st.buf o with
+    | none => (st, "not-enabled")
+    | some s =>
+      let extra := match o with
+        | .take => match s.taken.getLast? with | some (id, d) => s!" took={id}:{hex d}" | none => ""
+        | _ => ""
+      ({ st with buf := s }, showBuf s extra)
+
 def handleBuf (st : DState) : List String → DState × String
   | ["new", m, q, b, d, fresh] =>
-    match m.toNat?, q.toNat?, b.toNat? with
-    | some m, some q, some b =>
-      -- a generation that was not shut down is shut down first (the harness does the same)
-      let prev := if st.buf.destroyed then st.buf else (Buffer.step st.buf .destroy).getD st.buf
-      let disk := if fresh == "1" then [] else prev.disk
-      let s := Buffer.recover { memCap := m, queueCap := q, maxBytes := b, hasDir := d == "1" } disk
-      ({ st with buf := s }, showBuf s "")
-    | _, _, _ => (st, "bad-op")
-  | op :: args =>
-    let o : Option Buffer.Op := match op, args with
-      | "accept", [id, h] => do some (.accept (← id.toNat?) (← unhex h))
-      | "take", [] => some .take
-      | "confirm", [id] => id.toNat?.map .confirm
-      | "handback", [id] => id.toNat?.map .handBack
-      | "destroy", [] => some .destroy
-      | "finish", [] => some .finish
-      | "extzero", [id] => id.toNat?.map .extZero
-      | "extrm", [id] => id.toNat?.map .extRemove
-      | _, _ => none
-    match o with
+    match bufNew st m q b d fresh with
+    | some st1 => (st1, showBuf st1.buf "")
     | none => (st, "bad-op")
-    | some o =>
-      match Buffer.step st.buf o with
-      | none => (st, "not-enabled")
-      | some s =>
-        let extra := match o with
-          | .take => match s.taken.getLast? with | some (id, d) => s!" took={id}:{hex d}" | none => ""
-          | _ => ""
-        ({ st with buf := s }, showBuf s extra)
+  | ["newacc", m, q, b, d, fresh, id, h] =>
+    -- start of a generation immediately followed by an accept (no quiescence in between)
+    match bufNew st m q b d fresh with
+    | some st1 => bufOp st1 "accept" [id, h]
+    | none => (st, "bad-op")
+  | op :: args => bufOp st op args
   | _ => (st, "bad-op")
-
 
 /-! chunk persistence under faults -/
 
@@ -478,6 +489,7 @@ def handle (st : DState) (line : String) : DState × String :=
   | "cfg" :: rest => handleCfg st rest
   | "client" :: rest => (st, handleClient rest)
   | "buf" :: rest => handleBuf st rest
+  | "bufr" :: _ => (st, "any")   -- racy start (accept right after Start): judged by the harness oracle only
   | "disk" :: rest => handleDisk st rest
   | ["redact", h] =>
     match unhex h with
